@@ -66,7 +66,7 @@ def run(ctx):
                 "fact_secret_suffixes", "fact_load_from_flagset_shape", "fact_client_loader", "fact_sql_init", "secret_rule_regenerated", "flagset_refused_iff",
                 "flagset_reports_a_set_secret", "flagset_verdict_order_independent", "flagset_refusal_monotone", "load_refines_flagset", "client_token_cli_refused", "client_token_never_from_cli",
                 "implicit_sql_refused_any_datadir", "strict_sql_opened_is_configured", "init_sql_outcomes", "lenient_default_sqlite", "start_conn_refines",
-                "strict_conn_refuses_implicit"]
+                "strict_conn_refuses_implicit", "fact_dummy_guards", "dummy_strict_inert"]
     for r in required:
         if not any(t.endswith("Props." + r) for t in thms):
             ctx.oblige("thm-present:" + r, False, "theorem missing or its module does not build")
@@ -116,7 +116,7 @@ def run(ctx):
     best, viol = {}, 0
     feats_default = [0, 0]
     feats_src = [0, 0]
-    feats_sql, feats_cflag = [], []
+    feats_sql, feats_cflag, feats_dummy = [], [], []
     tags, outcomes = Counter(), Counter()
     distinct = set()
     product_rows = set()
@@ -329,6 +329,19 @@ def run(ctx):
                     violation("strict-accepted:url-not-https:via-sources", f"strict mode resolved ON from file={fv} env={env} cli={cli!r} but the node started with a plain-http public URL", opl)
                 if not strict_res and m.group(2) != "ok":
                     violation("lenient-refused:via-sources", f"strict mode resolved OFF but the node refused: {line}", opl)
+        elif kind == "dummy":
+            # the test-only means itself: in strict mode no call may do anything; lenient: it works
+            outs = line.split(" ", 1)[1].split(",") if " " in line else []
+            outcomes["dummy " + ("strict " if strict else "lenient ") + ("all-refused" if set(outs) == {"not-enabled"} else "acts")] += 1
+            distinct.add(("dummy", strict, tuple(op.get("acts", []))))
+            feats_dummy.append(strict)
+            for a, o in zip(op.get("acts", []), outs):
+                if strict and o != "not-enabled":
+                    violation("strict-dummy-means-acts:" + a.split(":")[0], f"dummy means in strict mode answered {a} with {o!r} (history {op.get('acts')})", opl)
+                    break
+                if not strict and (o == "not-enabled" or o.startswith("error:")):
+                    violation("lenient-refused:dummy-means:" + a.split(":")[0], f"lenient dummy means answered {a} with {o!r}", opl)
+                    break
         elif kind == "cflag":
             # CLI client commands: no option ending in token/password may come from the command line; without one the
             # command must load, and its token is the environment's
@@ -383,6 +396,7 @@ def run(ctx):
                    f"{len(capn)} response-cap cases (sizes incl. exactly 1 MiB and 1 MiB + 1)")
         ctx.oblige("sql-connection-rows-run", len(set(feats_sql)) >= 20 and (True, "lenient", "") in feats_sql,
                    f"{len(feats_sql)} connection-string rows, {len(set(feats_sql))} distinct (mode, data-directory history, adapter) incl. strict + used data directory + no string")
+        ctx.oblige("dummy-history-rows-run", feats_dummy.count(True) >= 10 and feats_dummy.count(False) >= 10, f"{len(feats_dummy)} histories on the dummy means")
         ctx.oblige("client-flag-rows-run", len(feats_cflag) >= 50 and ("token",) in feats_cflag and any("token" in f and len(f) > 1 for f in feats_cflag),
                    f"{len(feats_cflag)} CLI-client flag sets incl. --token alone and combined")
         ctx.oblige("default-strict-rows-run", feats_default[0] >= 8, f"{feats_default[0]} configurations without a strictmode key")
